@@ -181,6 +181,10 @@ CATALOGUE = {
     "opassign_optional_target_bigint": [("assign", "pend", I(2), "int?"), ("opassign", "pend", "+", ("big", 5))] + probe(V("pend")),
     "opassign_int_target_bigint": [("assign", "cnt", I(2)), ("opassign", "cnt", "*", ("big", 5))] + probe(V("cnt")),
     "opassign_bool_target": [("assign", "fl", B("==", V("in0"), I(1))), ("opassign", "fl", "+", I(1))] + probe(V("fl")),
+    # an integer literal too wide for 32 bits as operand of an expression that is not folded
+    "wide_literal_operand": [("assign", "a", I(5)), ("print", B("+", V("a"), ("int", 99999999999)))] + probe(B("+", V("a"), ("int", 99999999999))),
+    "wide_literal_concat": [("print", B("+", S("big"), ("int", 99999999999)))],
+    "wide_literal_argument": [("def", "idb", [("x", "bigint")], "bigint", [("return", V("x"))])] + probe(("call", "idb", [("int", 2147483648)])),
     # classes
     "field_wrong_type": [("class", "K", [("n", "int")], [("a", "int")], [("setfield", V("self"), "n", V("a"))], [("bad", [], None, [("setfield", V("self"), "n", S("s"))]), ("get", [], "int", [("return", ("field", V("self"), "n"))])]),
                          ("assign", "o", ("call", "K", [V("in0")])), ("expr", ("mcall", V("o"), "bad", []))] + probe(("mcall", V("o"), "get", [])) + [("print", B("+", ("mcall", V("o"), "get", []), I(1)))],
